@@ -104,11 +104,31 @@ impl Check for C09 {
         let mut tags: Vec<&str> = p.tags.iter().copied().collect();
         let mut src = p.src;
         if big {
-            // a file of more than 256 KiB (a bundle): the padding is a trailing comment, the program is the same
+            // a file of more than 256 KiB / 512 KiB (a bundle): the padding is a trailing comment, the program is the same
             tags.push("big-file");
             src.push_str("\n/* ");
-            src.push_str(&"padding of a big bundle ".repeat(11_500));
+            src.push_str(&"padding of a big bundle ".repeat(if t.flag() { 11_500 } else { 23_000 }));
             src.push_str("*/\n");
+        }
+        match t.below(12) {
+            // a `sourceURL` pragma (what eval'd / generated scripts carry): it does not rename the source of the map
+            0 => {
+                tags.push("source-url-pragma");
+                src.push_str("//# sourceURL=other-name.js\n");
+            }
+            1 => {
+                tags.push("source-url-pragma");
+                src = format!("/*# sourceURL=webpack://pkg/./src/block.js */\n{src}");
+            }
+            // raw U+2028 / U+2029 inside string literals (legal since ES2019): the rewriter's line table does not count them
+            // as line ends, neither on the input nor on the output side; the oracle follows that convention for such files
+            2 => {
+                if src.contains("'s'") {
+                    tags.push("raw-line-separator-in-string");
+                    src = src.replace("'s'", "'\u{2028}s\u{2029}'");
+                }
+            }
+            _ => {}
         }
         json!({"src": src, "cfg": cfg.json, "file": file, "tags": tags, "warmup": warmup})
     }
@@ -158,7 +178,8 @@ impl Check for C09 {
         if map.sources != vec![base_name.clone()] {
             return Outcome::fail("map-sources", format!("sources are {:?}, expected [{:?}] for file {:?}", map.sources, base_name, file));
         }
-        let in_table = LineTable::new(&src);
+        let raw_ls = src.contains('\u{2028}') || src.contains('\u{2029}');
+        let in_table = LineTable::with_terminators(&src, !raw_ls);
         for s in &map.segs {
             if let Some((si, l, c, _)) = s.src {
                 if si != 0 {
@@ -186,7 +207,7 @@ impl Check for C09 {
             Err(e) => return Outcome::skip(format!("round trip failed: {} ({})", e.sig, owner_of(&e.sig))),
         };
         let body = a.body.as_ref().unwrap();
-        let out_table = LineTable::new(body);
+        let out_table = LineTable::with_terminators(body, !raw_ls);
         let mut col = Collected { idents: vec![], stmts: vec![] };
         collect(&er.input, sp.base, op.base, &mut col, "", "");
         let mut nontrivial = false;
